@@ -415,6 +415,9 @@ def rule_sig_result(chk, w, consts):
         alts.append(([x for x in g.split(" & ") if x and x != "otherwise"], val))
 
     def ev(atom, st):
+        if atom.startswith("(") and atom.endswith(")") and " | " in atom:
+            parts = [ev(x, st) for x in atom[1:-1].split(" | ")]
+            return None if None in parts else any(parts)
         neg = atom.startswith("!")
         a = atom[1:] if neg else atom
         if re.match(r"^variant\(\(Bundle, TransparentDigests\)\?\)(==1)?$", a):
